@@ -9,7 +9,7 @@ Definition ex1 : config := mkC
   [ mkP (0,0) [0;1] [0;1] [0;10];
     mkP (1,0) [10] [2] [0;1];
     mkP (0,1) [0] [] [0;10] ]
-  [ (10, (false, [(0,1)])) ].
+  [ (10, Some (false, [(0,1)])) ] [].
 
 Lemma NoDup_by_dedup (l : list pid) : list_eqb pid_eqb (dedup pid_eqb l) l = true -> NoDup l.
 Proof.
@@ -63,7 +63,7 @@ Qed.
 
 (* why itineraries carry the capabilities / fan-out nodes: two pipelines without processors give the
    same visible (exporter, trail) twice — "once per path" is a statement about multisets *)
-Definition ex2 : config := mkC [ mkP (0,0) [0] [] [0]; mkP (0,1) [0] [] [0] ] [].
+Definition ex2 : config := mkC [ mkP (0,0) [0] [] [0]; mkP (0,1) [0] [] [0] ] [] [].
 Example ex2_twice :
   match build ex2 with
   | Ok g => deliver g (Recv 0 0) = [(Exp 0 0, []); (Exp 0 0, [])] /\
@@ -73,8 +73,8 @@ Example ex2_twice :
 Proof. vm_compute. split; reflexivity. Qed.
 
 (* a connector cycle (the pipeline feeds itself through connector 10) *)
-Definition ex_cyc : config := mkC [ mkP (0,0) [0;10] [3] [0;10] ] [ (10, (false, [(0,0)])) ].
-Example ex_cyc_rejected : build ex_cyc = Err ECycle /\ service_log ex_cyc = [] /\ validate ex_cyc = true.
+Definition ex_cyc : config := mkC [ mkP (0,0) [0;10] [3] [0;10] ] [ (10, Some (false, [(0,0)])) ] [].
+Example ex_cyc_rejected : build ex_cyc = Err ECycle /\ service_log [] ex_cyc = [] /\ validate ex_cyc = true.
 Proof. vm_compute. repeat split; reflexivity. Qed.
 Example ex_cyc_connector_cycle : connector_cycle ex_cyc.
 Proof.
@@ -92,8 +92,8 @@ Example ex_cyc_report_wrong : check_cycle_report ex_cyc [Conn 0 0 10; Proc (0,0)
 Proof. vm_compute. reflexivity. Qed.
 
 (* an unsupported use: connector 10 (traces->metrics only) between two traces pipelines *)
-Definition ex_uns : config := mkC [ mkP (0,0) [0] [] [10]; mkP (0,1) [10] [] [0] ] [ (10, (false, [(0,1)])) ].
-Example ex_uns_rejected : build ex_uns = Err EUnsupported /\ possible_errors ex_uns = [ErrExp 10 0] /\ service_log ex_uns = [].
+Definition ex_uns : config := mkC [ mkP (0,0) [0] [] [10]; mkP (0,1) [10] [] [0] ] [ (10, Some (false, [(0,1)])) ] [].
+Example ex_uns_rejected : build ex_uns = Err EUnsupported /\ possible_errors ex_uns = [ErrExp 10 0] /\ service_log [] ex_uns = [].
 Proof. vm_compute. repeat split; reflexivity. Qed.
 Example ex_uns_not_supported : ~ connectors_supported ex_uns.
 Proof.
@@ -103,14 +103,14 @@ Proof.
 Qed.
 
 (* a duplicated processor: Validate rejects, Build would panic *)
-Definition ex_dup : config := mkC [ mkP (2,0) [0] [1;1] [0] ] [].
-Example ex_dup_rejected : validate ex_dup = false /\ build ex_dup = Err EPanic /\ service_log ex_dup = [].
+Definition ex_dup : config := mkC [ mkP (2,0) [0] [1;1] [0] ] [] [].
+Example ex_dup_rejected : validate ex_dup = false /\ build ex_dup = Err EPanic /\ service_log [] ex_dup = [].
 Proof. vm_compute. repeat split; reflexivity. Qed.
 
 (* a connector fanning out to two signals is instantiated once per (source, destination) pair *)
 Definition ex_pairs : config := mkC
   [ mkP (0,0) [0] [] [10]; mkP (0,1) [1] [] [10]; mkP (1,0) [10] [] [0]; mkP (2,0) [10] [] [0]; mkP (1,1) [10] [] [1] ]
-  [ (10, (true, [(0,1); (0,2)])) ].
+  [ (10, Some (true, [(0,1); (0,2)])) ] [].
 Example ex_pairs_instances :
   match build ex_pairs with
   | Ok g => filter (fun n => match n with Conn _ _ _ => true | _ => false end) (created g) = [Conn 0 2 10; Conn 0 1 10]
@@ -121,7 +121,7 @@ Proof. vm_compute. split; reflexivity. Qed.
 
 (* factory kinds: a plain connector.NewFactory factory (flag false) links non-profile pipelines (ex1 above
    builds with such a connector); between profiles pipelines it supports nothing, an xconnector factory does *)
-Definition ex_prof (x : bool) : config := mkC [ mkP (3,0) [0] [] [10]; mkP (3,1) [10] [] [0] ] [ (10, (x, [(3,3)])) ].
+Definition ex_prof (x : bool) : config := mkC [ mkP (3,0) [0] [] [10]; mkP (3,1) [10] [] [0] ] [ (10, Some (x, [(3,3)])) ] [].
 Example ex_prof_kinds :
   build (ex_prof false) = Err EUnsupported /\ match build (ex_prof true) with Ok g => length (deliver g (Recv 3 0)) = 1 | Err _ => False end.
 Proof. vm_compute. split; reflexivity. Qed.
@@ -136,4 +136,11 @@ Example ex1_fault :
             /\ consume_error g [Exp 2 7] (Recv 0 0) = false
   | Err _ => False
   end.
+Proof. vm_compute. repeat split; reflexivity. Qed.
+
+(* a receiver from a stable factory in a profiles pipeline: the build fails in buildComponents after the exporter
+   was created; nothing is started *)
+Definition ex_fac : config := mkC [ mkP (3,0) [1] [] [0] ] [] [ (0, 1) ].
+Example ex_fac_rejected :
+  build ex_fac = Err EFactory /\ service_log [Exp 3 0; Recv 3 1] ex_fac = [Create (Exp 3 0)] /\ validate ex_fac = true.
 Proof. vm_compute. repeat split; reflexivity. Qed.
